@@ -561,7 +561,7 @@ class Gen:
             raise TlbError(f'constructor {c.name} has an implicit (CRC32) tag; declare it in the supplement')
         cur.bits = cur.bits + E.lit(c.tag)
         fields = [it for it in c.items if it[0] == 'field']
-        if c.name == '_' and c.tag == '' and len(fields) == 1 and fields[0][1] is None and fields[0][2][0] != 'cellref':
+        if c.tag == '' and len(fields) == 1 and fields[0][1] is None and fields[0][2][0] != 'cellref':
             # transparent alias `_ T = Name;` : the value IS the inner value (no extra nesting level)
             return self.type(fields[0][2], dict(binding), path, cur, depth - 1)
         rec = Rec(c.rtype, c.name)
